@@ -27,14 +27,40 @@ pub fn real_binary() -> String {
 }
 
 /// Ports below the ephemeral range (32768..): an outgoing connection of some client can then never be given the port a
-/// node is about to listen on. Different check processes start at different offsets; a port in use is skipped.
+/// node is about to listen on. Several check processes may run at once on this machine, and a port is only bound by its
+/// node some time after it was chosen: every port handed out is therefore claimed in a registry shared by all processes
+/// (one file per port under /tmp/nunverif-ports, created exclusively, holding the owner's pid; the claim of a process that
+/// no longer exists is taken over).
 fn free_port() -> u16 {
     static NEXT: std::sync::atomic::AtomicU32 = std::sync::atomic::AtomicU32::new(0);
+    let reg = "/tmp/nunverif-ports";
+    let _ = std::fs::create_dir_all(reg);
     let base = 10_000 + (std::process::id() % 997) * 20;
-    for _ in 0..20_000 {
+    for _ in 0..40_000 {
         let k = NEXT.fetch_add(1, std::sync::atomic::Ordering::SeqCst);
         let port = 10_000 + ((base - 10_000 + k) % 20_000);
-        if TcpListener::bind(("127.0.0.1", port as u16)).is_ok() {
+        let claim = format!("{}/{}", reg, port);
+        let mine = match std::fs::OpenOptions::new().write(true).create_new(true).open(&claim) {
+            Ok(mut f) => {
+                use std::io::Write;
+                let _ = write!(f, "{}", std::process::id());
+                true
+            }
+            Err(_) => {
+                // claimed: by a process that is gone?
+                let owner: i32 = std::fs::read_to_string(&claim).ok().and_then(|t| t.trim().parse().ok()).unwrap_or(0);
+                let gone = owner <= 0 || (unsafe { libc::kill(owner, 0) } != 0 && std::io::Error::last_os_error().raw_os_error() == Some(libc::ESRCH));
+                if gone && owner != std::process::id() as i32 {
+                    let _ = std::fs::write(&claim, format!("{}", std::process::id()));
+                    // two processes may take over the same stale claim at once: the one whose pid stays in the file owns it
+                    std::thread::sleep(std::time::Duration::from_millis(2));
+                    std::fs::read_to_string(&claim).ok().map(|t| t.trim() == std::process::id().to_string()).unwrap_or(false)
+                } else {
+                    false
+                }
+            }
+        };
+        if mine && TcpListener::bind(("0.0.0.0", port as u16)).is_ok() {
             return port as u16;
         }
     }
@@ -58,6 +84,9 @@ pub struct RealCluster {
     /// when a node was last started: its initial election fires one second later (src/lib/election_ops.rs), the
     /// cluster is not quiet before that
     pub last_start: Option<Instant>,
+    /// nodes listen on 0.0.0.0:<port> and are known to the cluster as 127.0.0.1:<port> (--external-address): what a
+    /// deployment behind NAT / in a container does
+    pub bind_any: bool,
 }
 
 /// One client connection speaking the TCP protocol. `cmd` returns (accepted, status line, lines pushed before it).
@@ -130,7 +159,7 @@ impl RealCluster {
             std::fs::create_dir_all(&dir).unwrap();
             nodes.push(RealNode { dir, tcp: format!("127.0.0.1:{}", free_port()), http: format!("127.0.0.1:{}", free_port()), ws: format!("127.0.0.1:{}", free_port()), child: None, starts: 0 });
         }
-        RealCluster { nodes, base, env: env.iter().map(|(a, b)| (a.to_string(), b.to_string())).collect(), log_level: "info".into(), last_start: None }
+        RealCluster { nodes, base, env: env.iter().map(|(a, b)| (a.to_string(), b.to_string())).collect(), log_level: "info".into(), last_start: None, bind_any: false }
     }
 
     pub fn n(&self) -> usize {
@@ -148,7 +177,12 @@ impl RealCluster {
         let log2 = log.try_clone().unwrap();
         let n = &mut self.nodes[i];
         let mut cmd = Command::new(real_binary());
-        cmd.args(["-u", USER, "-p", PWD, "start", "--http-address", &n.http, "--tcp-address", &n.tcp, "--ws-address", &n.ws, "--replicate-address", &all.join(",")]);
+        if self.bind_any {
+            let bind = format!("0.0.0.0:{}", n.tcp.rsplit(':').next().unwrap_or(""));
+            cmd.args(["-u", USER, "-p", PWD, "start", "--http-address", &n.http, "--tcp-address", &bind, "--external-address", &n.tcp, "--ws-address", &n.ws, "--replicate-address", &all.join(",")]);
+        } else {
+            cmd.args(["-u", USER, "-p", PWD, "start", "--http-address", &n.http, "--tcp-address", &n.tcp, "--ws-address", &n.ws, "--replicate-address", &all.join(",")]);
+        }
         cmd.env("NUN_DBS_DIR", &n.dir).env("NUN_LOG_LEVEL", &self.log_level).env_remove("NUN_STORAGE_STRATEGY").env("NUN_ELECTION_TIMEOUT", ELECTION_TIMEOUT_MS.to_string());
         for (k, v) in &self.env {
             cmd.env(k, v);
@@ -166,9 +200,10 @@ impl RealCluster {
         for _ in 0..1500 {
             // all three listeners (a listener that cannot bind its port panics its thread: not the node's fault)
             if std::net::TcpStream::connect(&tcp).is_ok() && std::net::TcpStream::connect(&http).is_ok() && std::net::TcpStream::connect(&ws).is_ok() {
-                return true;
+                // (somebody else's listener on one of the ports would answer as well)
+                return self.bind_failures(i).is_empty();
             }
-            if !self.alive(i) {
+            if !self.alive(i) || !self.bind_failures(i).is_empty() {
                 return false;
             }
             std::thread::sleep(Duration::from_millis(10));
@@ -205,6 +240,15 @@ impl RealCluster {
         let _ = ch.kill();
         let _ = ch.wait();
         None
+    }
+
+    /// SIGSTOP / SIGCONT: the process stalls (swap, a long pause of the machine) while its connections stay open
+    pub fn pause(&mut self, i: usize, stop: bool) {
+        if let Some(ch) = self.nodes[i].child.as_ref() {
+            unsafe {
+                libc::kill(ch.id() as i32, if stop { libc::SIGSTOP } else { libc::SIGCONT });
+            }
+        }
     }
 
     pub fn admin(&self, i: usize) -> Option<RealClient> {
@@ -259,6 +303,7 @@ impl RealCluster {
     /// a database that cannot be selected with its token is None.
     pub fn dataset(&self, i: usize, dbs: &[(String, String)]) -> Option<BTreeMap<String, Option<BTreeMap<String, (String, i32)>>>> {
         let mut c = self.admin(i)?;
+        c.c.keep_ws = true; // values byte for byte, white space at their end included
         let mut out = BTreeMap::new();
         for (db, tok) in dbs {
             match c.cmd(&format!("use-db {} {}", db, tok)) {
@@ -298,10 +343,30 @@ impl RealCluster {
         l[l.len().saturating_sub(n)..].iter().map(|s| s.chars().take(300).collect()).collect()
     }
 
-    /// panic messages in a node's output (a thread of the real process died)
+    /// panic messages in a node's output (a thread of the real process died). A listener that could not have its port
+    /// (the port was taken by something else on this machine between being chosen and being bound) is not the node's
+    /// fault and not reported here: see `bind_failures`.
     pub fn panics(&self, i: usize) -> Vec<String> {
+        self.panic_lines(i).into_iter().filter(|(_, bind)| !*bind).map(|(l, _)| l).collect()
+    }
+
+    pub fn bind_failures(&self, i: usize) -> Vec<String> {
+        self.panic_lines(i).into_iter().filter(|(_, bind)| *bind).map(|(l, _)| l).collect()
+    }
+
+    fn panic_lines(&self, i: usize) -> Vec<(String, bool)> {
         let t = std::fs::read(self.log_path(i)).unwrap_or_default();
-        String::from_utf8_lossy(&t).lines().filter(|l| l.contains("panicked at")).map(|s| s.chars().take(300).collect()).collect()
+        let t = String::from_utf8_lossy(&t).to_string();
+        let lines: Vec<&str> = t.lines().collect();
+        let mut out = vec![];
+        for (k, l) in lines.iter().enumerate() {
+            if l.contains("panicked at") {
+                let msg = lines.get(k + 1).cloned().unwrap_or("");
+                let bind = msg.contains("Bind error") || msg.contains("Address already in use") || msg.contains("AddrInUse");
+                out.push((format!("{} {}", l.chars().take(200).collect::<String>(), msg.chars().take(160).collect::<String>()), bind));
+            }
+        }
+        out
     }
 
     pub fn shutdown(mut self) {
